@@ -116,14 +116,8 @@ def families(tier, seed):
 
 def _twin_face_contact():
     """mutant: two polyhedra in face contact (intersection is a polygon) are reported as disjoint"""
-    import sys as _sys
-    it = _sys.modules['Geometry3D.calc.intersection']
-    orig = it.inter_convexpolyhedron_convexpolyhedron
-
-    def f(a, b):
-        r = orig(a, b)
-        return None if isinstance(r, ConvexPolygon) else r
-    it.inter_convexpolyhedron_convexpolyhedron = f
+    from .c01 import _wrap_public
+    _wrap_public('intersection', lambda a, b, r: None if (isinstance(r, ConvexPolygon) and isinstance(a, ConvexPolyhedron) and isinstance(b, ConvexPolyhedron)) else r)
 
 
 TWINS = {'face contact of two polyhedra -> None': (r'^Polyhedron-cube@axis/Polyhedron-cube@axis/base0,0,0/w1,0,0/', _twin_face_contact)}
